@@ -466,7 +466,7 @@ class Engine:
         """instance of a real class with the given field values (used by contracts to build pre-states)"""
         ci = self.program.classes.get(qualname)
         if ci is None:
-            raise CheckerError('class %s not found' % qualname)
+            raise Unsupported('class %s is not in the tree any more: its contract cannot be attached' % qualname)
         d = {'__kind__': 'obj', '__class__': ci}
         d.update(fields)
         return self.new_cell(d)
@@ -622,7 +622,7 @@ class Engine:
     def get_function(self, qualname):
         fi = self.program.functions.get(qualname)
         if fi is None:
-            raise CheckerError('function %s not found in %s' % (qualname, self.program.repo))
+            raise Unsupported('function %s is not in the tree any more: its contract cannot be attached' % qualname)
         return fi
 
     def ghost_function(self, src, name=None):
@@ -1198,7 +1198,7 @@ class Engine:
         parts = key.split('.')
         v = fr.locals.get(parts[0])
         if v is None:
-            raise CheckerError('loop spec key %s: no local %s' % (key, parts[0]))
+            raise Unsupported('loop invariant names the local %s, which the loop no longer has (invariant does not match the code)' % parts[0])
         for p in parts[1:]:
             v = self.heap[v.oid][p]
         if isinstance(v, VRef) and self.kind_of(v) == 'list':
